@@ -457,7 +457,7 @@ func workerReplay(t *testing.T) {
 	sigs := map[string]bool{}
 	var last *CaseResult
 	for i := 0; i < 2; i++ {
-		res := runCase(t, rf.Profile, rf.Seed, ReplayTape(rf.Plan), ReplayTape(rf.Sched), tier, i == 0)
+		res := runCase(t, rf.Profile, rf.Seed, ReplayTape(rf.Plan), ReplayTape(rf.Sched), tier, i == 0 || *flagTrace)
 		sigs[fmt.Sprintf("%s|%s|%s", res.Sched, res.Shape, jsonString(res.Violations))] = true
 		last = res
 	}
